@@ -50,7 +50,9 @@ def run_program(case):
             _, _, _, qty, price, comm = op
             old = net.get(a, 0)
             oid = ('o%d' % (i // 3)) if case.get('repeat_order_ids') else 'o%d' % i
-            port.transact_asset(q.Transaction(a, qty, t, price, oid, commission=comm))
+            # (the commission is the documented sixth argument: by keyword, or by position)
+            port.transact_asset(q.Transaction(a, qty, t, price, oid, commission=comm) if i % 2 else
+                                q.Transaction(a, qty, t, price, oid, comm))
             net[a] = old + qty
             if qty != 0:
                 last[a] = F(price)
@@ -71,7 +73,12 @@ def run_program(case):
         else:
             _, _, _, price = op
             held = a in port.pos_handler.positions
-            port.update_market_value_of_asset(a, price, t)
+            if held and case.get('undated_marks') and i % 3 == 0:
+                # the quote reaches the position object directly, without the optional timestamp
+                port.pos_handler.positions[a].update_current_price(price)
+                flags.add('mark_without_timestamp')
+            else:
+                port.update_market_value_of_asset(a, price, t)
             if net.get(a, 0) != 0:
                 last[a] = F(price)
                 flags.add('mark_on_held')
@@ -143,7 +150,7 @@ def programs(draw):
                 lastp[a] = mp
             ops.append(['mark', dt, a, mp])
     return {'cash': draw(st.sampled_from([0.0, 1e4, 1e6])), 'na': na, 'ops': ops, 'starting_cash': draw(st.booleans()),
-            'repeat_order_ids': draw(st.sampled_from([False, False, True]))}
+            'repeat_order_ids': draw(st.sampled_from([False, False, True])), 'undated_marks': draw(st.booleans())}
 
 
 def new_harness():
